@@ -852,6 +852,9 @@ void GridFourier::setAnisotropicRefinement(TypeDepth type, int min_growth, int o
 
     int level = 0;
     do{
+        #ifdef TASMANIAN_VERIF_HOOKS
+        TSG_VERIF_HOOK("aniso-grow-tick", level, min_growth);
+        #endif
         updateGrid(++level, type, weights, level_limits);
     }while((getNumNeeded() < min_growth) && !saturated());
 }
